@@ -445,11 +445,21 @@ func c08Aggregates(c *fw.Ctx) {
 		n := 1 + rng.Intn(5)
 		baseTs := []uint32{0, 1000, 0xFFFFFE, 0xFFFFFF, 0x1000000, 0x7fffffff}[rng.Intn(6)]
 		subBase := uint32(rng.Intn(1 << 20))
+		if rep%5 == 2 {
+			// the sub-message timestamps (24 bits + an extension byte, as in an FLV tag) cross a multiple of 2^24
+			subBase = uint32(1+rng.Intn(3))<<24 - uint32(1+rng.Intn(60))
+			c.Count("aggregates_crossing_2^24", 1)
+		}
+		// FLV-tag layout: encoders write stream id 0 into the sub-message headers; the aggregate's own id counts
+		subSid := uint32(1)
+		if rep%3 == 1 {
+			subSid = 0
+		}
 		var subs []ref.RtmpMsg
 		t := subBase
 		for k := 0; k < n; k++ {
 			typ := uint8(8 + rng.Intn(2))
-			subs = append(subs, ref.RtmpMsg{Csid: 4, TypeID: typ, StreamID: 1, Ts: t, Payload: c09Fill(1+rng.Intn(300), uint32(rep*10+k))})
+			subs = append(subs, ref.RtmpMsg{Csid: 4, TypeID: typ, StreamID: subSid, Ts: t, Payload: c09Fill(1+rng.Intn(300), uint32(rep*10+k))})
 			t += uint32(rng.Intn(50))
 		}
 		agg := ref.RtmpMsg{Csid: 4, TypeID: 22, StreamID: 1, Ts: baseTs, Payload: ref.BuildAggregate(subs)}
